@@ -500,6 +500,355 @@ theorem insert_agree_outside_hive (d d' : Gen.D) (h : InsertHead) (q : Query) (h
   have h3 : (h.type == "INSERT_OVERWRITE") = false := by simpa using ht
   simp [stmtDep, headDep, h1, h2, h3, hc]
 
+/-! ## 4. which error, and exactly when text — query trees
+
+The printer can also fail for reasons that have nothing to do with the dialect: a node built by hand (not by the parser)
+may carry an enum member name outside the generated tables (`UNMODELLED`), `None` where `ASTSelectStatement.with_clause`
+is dereferenced (`AttributeError`), or an empty grouping set (`IndexError`).  `illFormed` flags exactly those nodes. -/
+
+def unknownName {β : Type} (tbl : List (String × β)) (n : String) : Bool := (tbl.find? (·.1 == n)).isNone
+
+def illFormed : Loc where
+  e := fun
+    | .unary o _ => unknownName Gen.computeEnum o
+    | .compute _ o _ => unknownName Gen.computeEnum o
+    | .compare o _ _ => unknownName Gen.compareEnum o
+    | .cast _ _ ty _ => unknownName Gen.castTypes ty
+    | _ => false
+  s := fun | .mk ws _ _ _ _ _ _ _ _ _ _ _ _ _ => ws.isNone
+  j := fun | .mk ty _ _ => unknownName Gen.joinTypes ty
+  g := fun | .mk _ sets _ _ => match sets with | some l => l.any List.isEmpty | none => false
+  q := fun
+    | .single _ => false
+    | .union ws _ us => ws.isNone || us.any fun p => unknownName Gen.unionTypes p.1
+
+/-- the nodes dialect `d` refuses -/
+def refusedLoc (d : Gen.D) : Loc where
+  e := fun x => (isMod x && !modOk d) || (isIndex x && !indexOk d)
+  s := fun x => (hasHiveClauses x && !hiveClausesOk d) || (hasLateral x && !lateralOk d)
+
+/-- every node at which printing for `d` fails locally -/
+def notPrintable (d : Gen.D) : Loc where
+  e := fun x => illFormed.e x || (refusedLoc d).e x
+  s := fun x => illFormed.s x || (refusedLoc d).s x
+  j := illFormed.j
+  g := illFormed.g
+  q := illFormed.q
+
+theorem computeOpSrc_res (d : Gen.D) (o : String) (h : unknownName Gen.computeEnum o = false) :
+    computeOpSrc d o = .error .notSupported ∨ ∃ s, computeOpSrc d o = .ok s := by
+  unfold computeOpSrc
+  split
+  · exact .inl rfl
+  · right
+    simp only [unknownName, Option.isNone_eq_false_iff, Option.isSome_iff_exists] at h
+    obtain ⟨x, hx⟩ := h
+    exact ⟨x.2.1, by simp only [hx]⟩
+
+theorem computeOpSrc_ok (d : Gen.D) (o : String) (h : unknownName Gen.computeEnum o = false)
+    (hm : (o == "MOD") = false ∨ modOk d = true) : ∃ s, computeOpSrc d o = .ok s := by
+  rcases computeOpSrc_res d o h with he | hok
+  · exfalso
+    unfold computeOpSrc at he
+    have hm' : (o == "MOD" && !(d == .DEFAULT || d == .MYSQL || d == .SQL_SERVER || d == .HIVE)) = false := by
+      rcases hm with hm | hm
+      · simp only [hm, Bool.false_and]
+      · have : (d == .DEFAULT || d == .MYSQL || d == .SQL_SERVER || d == .HIVE) = true := hm
+        simp only [this, Bool.not_true, Bool.and_false]
+    simp only [hm', Bool.false_eq_true, if_false] at he
+    simp only [unknownName, Option.isNone_eq_false_iff, Option.isSome_iff_exists] at h
+    obtain ⟨x, hx⟩ := h
+    simp only [hx] at he
+    cases he
+  · exact hok
+
+theorem wordsSrc_ok (tbl : List (String × List String)) (n : String) (h : unknownName tbl n = false) : ∃ s, wordsSrc tbl n = .ok s := by
+  simp only [unknownName, Option.isNone_eq_false_iff, Option.isSome_iff_exists] at h
+  obtain ⟨x, hx⟩ := h
+  exact ⟨joinS " " x.2, by simp only [wordsSrc, hx]⟩
+theorem valueSrc_ok (tbl : List (String × String)) (n : String) (h : unknownName tbl n = false) : ∃ s, valueSrc tbl n = .ok s := by
+  simp only [unknownName, Option.isNone_eq_false_iff, Option.isSome_iff_exists] at h
+  obtain ⟨x, hx⟩ := h
+  exact ⟨x.2, by simp only [valueSrc, hx]⟩
+theorem compareOpSrc_ok (n : String) (h : unknownName Gen.compareEnum n = false) : ∃ s, compareOpSrc n = .ok s := by
+  simp only [unknownName, Option.isNone_eq_false_iff, Option.isSome_iff_exists] at h
+  obtain ⟨x, hx⟩ := h
+  exact ⟨joinS " " x.2, by simp only [compareOpSrc, hx]⟩
+
+theorem okOr_of_ok {E : Err → Prop} {α : Type} {x : Except Err α} (h : ∃ s, x = .ok s) : OkOr E x := by
+  obtain ⟨s, hs⟩ := h; rw [hs]; exact OkOr.ok _
+
+theorem prSGuard_res (d : Gen.D) (lats : List Lateral) (sb : Option (List OrderItem)) (db cb : Option (List Expr)) :
+    OkOr (· = .notSupported) (prSGuard d lats sb db cb) := by
+  unfold prSGuard
+  split
+  · exact OkOr.error rfl
+  · split
+    · exact OkOr.error rfl
+    · exact OkOr.ok _
+
+theorem illFormed_grp (gc : List Expr) (sets : Option (List (List Expr))) (cube rollup : Bool)
+    (h : illFormed.g (.mk gc sets cube rollup) = false) : ∀ l, sets = some l → [] ∉ l := by
+  intro l hl hmem
+  subst hl
+  simp only [illFormed, List.any_eq_false] at h
+  exact h [] hmem rfl
+
+theorem illFormed_qry {E : Err → Prop} (ws : Option (List WithTable)) (x : Select) (us : List (String × Select))
+    (h : illFormed.q (.union ws x us) = false) : ws ≠ none ∧ ∀ p ∈ us, OkOr E (wordsSrc Gen.unionTypes p.1) := by
+  simp only [illFormed, Bool.or_eq_false_iff, List.any_eq_false] at h
+  refine ⟨by intro hn; rw [hn] at h; simp at h, fun p hp => okOr_of_ok ?_⟩
+  have := h.2 p hp
+  exact wordsSrc_ok Gen.unionTypes p.1 (by simpa using this)
+
+/-- on a well-formed tree the only error the printer's local steps can produce is the not-supported error -/
+theorem illFormed_clean (d : Gen.D) : illFormed.Clean d (· = .notSupported) where
+  un := by
+    intro o e h
+    rcases computeOpSrc_res d o h with he | hok
+    · rw [he]; exact OkOr.error rfl
+    · exact okOr_of_ok hok
+  bin := by
+    intro l o r h
+    rcases computeOpSrc_res d o h with he | hok
+    · rw [he]; exact OkOr.error rfl
+    · exact okOr_of_ok hok
+  cmp := by
+    intro o l r h
+    exact okOr_of_ok (compareOpSrc_ok o h)
+  cast := by
+    intro e sg ty ps h
+    exact okOr_of_ok (valueSrc_ok Gen.castTypes ty h)
+  idx := fun _ _ _ => .inr rfl
+  sel := by
+    intro ws dist cols fr lats js wh gb hv ob sb db cb lm h
+    refine ⟨by intro hn; rw [hn] at h; simp [illFormed] at h, prSGuard_res d lats sb db cb⟩
+  join := by
+    intro ty t rule h
+    exact okOr_of_ok (wordsSrc_ok Gen.joinTypes ty h)
+  grp := illFormed_grp
+  qry := illFormed_qry
+
+/-- **C13.refusal_is_notSupported**: on a well-formed query tree, a construct of family `c` at any depth printed for a
+dialect outside `c`'s set yields exactly the library's not-supported error (the sharp form of `refusal_propagates`). -/
+theorem refusal_is_notSupported_query (c : Construct) (d : Gen.D) (q : Query) (hw : anyQ illFormed q = false)
+    (hu : usesQ c q = true) (hd : c.ok d = false) : prQ d q = .error .notSupported := by
+  obtain ⟨e, he⟩ := refusal_propagates_query c d q hu hd
+  rw [he, res_Q (illFormed_clean d) q hw e he]
+
+theorem refusal_is_notSupported_expr (c : Construct) (d : Gen.D) (e : Expr) (hw : anyE illFormed e = false)
+    (hu : usesE c e = true) (hd : c.ok d = false) : prE d e = .error .notSupported := by
+  obtain ⟨x, hx⟩ := refusal_propagates_expr c d e hu hd
+  rw [hx, res_E (illFormed_clean d) e hw x hx]
+
+/-- a well-formed query tree is printed or refused with the not-supported error; nothing else can happen -/
+theorem wellFormed_text_or_notSupported (d : Gen.D) (q : Query) (hw : anyQ illFormed q = false) :
+    (∃ s, prQ d q = .ok s) ∨ prQ d q = .error .notSupported := by
+  cases h : prQ d q with
+  | ok s => exact .inl ⟨s, rfl⟩
+  | error e => right; rw [res_Q (illFormed_clean d) q hw e h]
+
+theorem notPrintable_clean (d : Gen.D) : (notPrintable d).Clean d (fun _ => False) where
+  un := by
+    intro o e h
+    simp only [notPrintable, refusedLoc, illFormed, isMod, isIndex, Bool.false_and, Bool.or_false, Bool.or_eq_false_iff,
+      Bool.and_eq_false_iff, Bool.not_eq_false'] at h
+    exact okOr_of_ok (computeOpSrc_ok d o h.1 h.2)
+  bin := by
+    intro l o r h
+    simp only [notPrintable, refusedLoc, illFormed, isMod, isIndex, Bool.false_and, Bool.or_false, Bool.or_eq_false_iff,
+      Bool.and_eq_false_iff, Bool.not_eq_false'] at h
+    exact okOr_of_ok (computeOpSrc_ok d o h.1 h.2)
+  cmp := by
+    intro o l r h
+    simp only [notPrintable, refusedLoc, illFormed, isMod, isIndex, Bool.false_and, Bool.or_false] at h
+    exact okOr_of_ok (compareOpSrc_ok o h)
+  cast := by
+    intro e sg ty ps h
+    simp only [notPrintable, refusedLoc, illFormed, isMod, isIndex, Bool.false_and, Bool.or_false] at h
+    exact okOr_of_ok (valueSrc_ok Gen.castTypes ty h)
+  idx := by
+    intro a i h
+    simp only [notPrintable, refusedLoc, illFormed, isMod, isIndex, indexOk, Bool.false_and, Bool.false_or, Bool.true_and,
+      Bool.not_eq_false', beq_iff_eq] at h
+    exact .inl h
+  sel := by
+    intro ws dist cols fr lats js wh gb hv ob sb db cb lm h
+    simp only [notPrintable, refusedLoc, illFormed, hasHiveClauses, hasLateral, hiveClausesOk, lateralOk, Bool.or_eq_false_iff,
+      Bool.and_eq_false_iff, Bool.not_eq_false'] at h
+    obtain ⟨hws, hh, hl⟩ := h
+    refine ⟨by intro hn; rw [hn] at hws; simp at hws, ?_⟩
+    have h1 : (d != .HIVE && (sb.isSome || db.isSome || cb.isSome)) = false := by
+      rcases hh with ⟨⟨a, b⟩, c⟩ | hh
+      · rw [a, b, c]; simp
+      · simp [bne, hh]
+    have h2 : (!(d == .HIVE || d == .DEFAULT) && !lats.isEmpty) = false := by
+      rcases hl with hl | hl
+      · rw [hl]; simp
+      · rw [hl]; simp
+    unfold prSGuard
+    simp only [h1, h2, Bool.false_eq_true, if_false]
+    exact OkOr.ok _
+  join := by
+    intro ty t rule h
+    exact okOr_of_ok (wordsSrc_ok Gen.joinTypes ty h)
+  grp := illFormed_grp
+  qry := illFormed_qry
+
+theorem unknown_find {β : Type} (tbl : List (String × β)) (n : String) (h : unknownName tbl n = true) :
+    tbl.find? (·.1 == n) = none := by
+  simpa only [unknownName, Option.isNone_iff_eq_none] using h
+
+theorem computeOpSrc_unknown (d : Gen.D) (o : String) (h : unknownName Gen.computeEnum o = true) : ∀ s, computeOpSrc d o ≠ .ok s := by
+  intro s hs
+  unfold computeOpSrc at hs
+  split at hs
+  · cases hs
+  · rw [unknown_find _ _ h] at hs; cases hs
+
+theorem notPrintable_refused (d : Gen.D) : (notPrintable d).Refused d where
+  e := by
+    intro x hx s hs
+    simp only [notPrintable, Bool.or_eq_true] at hx
+    rcases hx with hx | hx
+    · cases x <;> simp only [illFormed, Bool.false_eq_true] at hx
+      · simp [prE, bind_eq_ok, map_eq_ok, fmap_eq_ok, valueSrc, unknown_find _ _ hx] at hs
+      · simp only [prE, bind_eq_ok] at hs
+        obtain ⟨a, ha, -⟩ := hs
+        exact computeOpSrc_unknown d _ hx a ha
+      · simp only [prE, bind_eq_ok] at hs
+        obtain ⟨_, -, b, hb, -⟩ := hs
+        exact computeOpSrc_unknown d _ hx b hb
+      · simp [prE, bind_eq_ok, map_eq_ok, fmap_eq_ok, compareOpSrc, unknown_find _ _ hx] at hs
+    · simp only [refusedLoc, Bool.or_eq_true, Bool.and_eq_true, Bool.not_eq_true'] at hx
+      rcases hx with ⟨hx, hd⟩ | ⟨hx, hd⟩
+      · exact (Construct.refused .mod d hd).e x hx s hs
+      · exact (Construct.refused .index d hd).e x hx s hs
+  s := by
+    intro x hx s hs
+    simp only [notPrintable, Bool.or_eq_true] at hx
+    rcases hx with hx | hx
+    · obtain ⟨ws, dist, cols, fr, lats, js, wh, gb, hv, ob, sb, db, cb, lm⟩ := x
+      simp only [illFormed, Option.isNone_iff_eq_none] at hx
+      subst hx
+      rw [prS_eq] at hs
+      obtain ⟨w, hw, -⟩ := (bind_eq_ok _ _ _).1 hs
+      simp [prWithPrefix] at hw
+    · simp only [refusedLoc, Bool.or_eq_true, Bool.and_eq_true, Bool.not_eq_true'] at hx
+      rcases hx with ⟨hx, hd⟩ | ⟨hx, hd⟩
+      · exact (Construct.refused .hiveClauses d hd).s x hx s hs
+      · exact (Construct.refused .lateralView d hd).s x hx s hs
+  j := by
+    intro x hx s hs
+    obtain ⟨ty, t, rule⟩ := x
+    have hx' : unknownName Gen.joinTypes ty = true := hx
+    rcases rule with _ | ⟨c | u⟩ <;> simp [prJoin, bind_eq_ok, fmap_eq_ok, wordsSrc, unknown_find _ _ hx'] at hs
+  g := by
+    intro x hx s hs
+    obtain ⟨gc, sets, cube, rollup⟩ := x
+    cases sets with
+    | none => simp [notPrintable, illFormed] at hx
+    | some l =>
+      have hx' : l.any List.isEmpty = true := hx
+      simp only [prGroupBy, bind_eq_ok, map_eq_ok] at hs
+      obtain ⟨_, -, _, ⟨y, hy, -⟩, -⟩ := hs
+      have key : ∀ (l : List (List Expr)), l.any List.isEmpty = true → ∀ y, prSets d l ≠ .ok y := by
+        intro l
+        induction l with
+        | nil => simp
+        | cons g r ih =>
+          intro h y hy
+          cases g with
+          | nil => simp [prSets, bind_eq_ok] at hy
+          | cons a t =>
+            simp only [List.any_cons, List.isEmpty_cons, Bool.false_or] at h
+            cases t with
+            | nil =>
+              simp only [prSets, bind_eq_ok] at hy
+              obtain ⟨_, -, z, hz, -⟩ := hy
+              exact ih h z hz
+            | cons b t =>
+              simp only [prSets, bind_eq_ok] at hy
+              obtain ⟨_, -, z, hz, -⟩ := hy
+              exact ih h z hz
+      exact key l hx' y hy
+  q := by
+    intro x hx s hs
+    cases x with
+    | single x => simp [notPrintable, illFormed] at hx
+    | union ws x us =>
+      simp only [notPrintable, illFormed, Bool.or_eq_true, Option.isNone_iff_eq_none, List.any_eq_true] at hx
+      simp only [prQ, bind_eq_ok] at hs
+      obtain ⟨w, hw, a, -, b, hb, -⟩ := hs
+      rcases hx with rfl | ⟨p, hp, hu⟩
+      · simp [prWithPrefix] at hw
+      · have key : ∀ (us : List (String × Select)), p ∈ us → ∀ b, prUnions d us ≠ .ok b := by
+          intro us
+          induction us with
+          | nil => simp
+          | cons u r ih =>
+            intro hp b hb
+            obtain ⟨t, x⟩ := u
+            simp only [prUnions, bind_eq_ok] at hb
+            obtain ⟨_, hw, _, -, z, hz, -⟩ := hb
+            rcases List.mem_cons.1 hp with rfl | hp
+            · simp [wordsSrc, unknown_find _ _ hu] at hw
+            · exact ih hp z hz
+        exact key us hp b hb
+
+/-- **C13.printable_iff**: the printer model produces text for a query tree under dialect `d` exactly when no node of the
+tree (at any depth) is ill-formed or is a construct `d` refuses. -/
+theorem printable_iff (d : Gen.D) (q : Query) : (∃ s, prQ d q = .ok s) ↔ anyQ (notPrintable d) q = false := by
+  constructor
+  · rintro ⟨s, hs⟩
+    cases hb : anyQ (notPrintable d) q with
+    | false => rfl
+    | true => exact (bad_Q (notPrintable_refused d) q hb s hs).elim
+  · intro hb
+    exact OkOr.total (res_Q (notPrintable_clean d) q hb)
+
+theorem printable_iff_expr (d : Gen.D) (e : Expr) : (∃ s, prE d e = .ok s) ↔ anyE (notPrintable d) e = false := by
+  constructor
+  · rintro ⟨s, hs⟩
+    cases hb : anyE (notPrintable d) e with
+    | false => rfl
+    | true => exact (bad_E (notPrintable_refused d) e hb s hs).elim
+  · intro hb
+    exact OkOr.total (res_E (notPrintable_clean d) e hb)
+
+end C13
+
+namespace C01
+open Ast PR C13
+
+/-- what the DEFAULT printer flags, spelled out: ill-formed nodes, array index, SORT/DISTRIBUTE/CLUSTER BY — `%` and LATERAL
+VIEW are printed -/
+theorem default_flags_expr (x : Expr) : (notPrintable .DEFAULT).e x = (illFormed.e x || isIndex x) := by
+  simp [notPrintable, refusedLoc, modOk, indexOk, (by decide : (Gen.D.DEFAULT == Gen.D.HIVE) = false)]
+theorem default_flags_select (x : Select) : (notPrintable .DEFAULT).s x = (illFormed.s x || hasHiveClauses x) := by
+  simp [notPrintable, refusedLoc, hiveClausesOk, lateralOk, (by decide : (Gen.D.DEFAULT == Gen.D.HIVE) = false)]
+
+/-- **C01.print_total_on_default**: for the DEFAULT dialect the printer model produces text for EVERY query tree that has no
+ill-formed node, no array index and no SORT/DISTRIBUTE/CLUSTER BY clause at any depth — and for no other tree. -/
+theorem print_total_on_default (q : Query) : (∃ s, prQ .DEFAULT q = .ok s) ↔ anyQ (notPrintable .DEFAULT) q = false :=
+  printable_iff .DEFAULT q
+
+theorem notPrintable_hive : notPrintable .HIVE = illFormed := by
+  have e1 : (notPrintable .HIVE).e = illFormed.e := by funext x; simp [notPrintable, refusedLoc, modOk, indexOk]
+  have e2 : (notPrintable .HIVE).s = illFormed.s := by funext x; simp [notPrintable, refusedLoc, hiveClausesOk, lateralOk]
+  show Loc.mk (notPrintable .HIVE).e (notPrintable .HIVE).s illFormed.j illFormed.g illFormed.q
+    = Loc.mk illFormed.e illFormed.s illFormed.j illFormed.g illFormed.q
+  rw [e1, e2]
+
+/-- Hive refuses nothing: every well-formed query tree is printed -/
+theorem print_total_on_hive (q : Query) (h : anyQ illFormed q = false) : ∃ s, prQ .HIVE q = .ok s :=
+  (printable_iff .HIVE q).2 (by rw [notPrintable_hive]; exact h)
+
+end C01
+
+namespace C13
+open Ast PR
+
 /-! ## non-vacuity
 
 `example … := by decide` is checked by the kernel (the structural predicates reduce there); the printed texts are
@@ -514,9 +863,18 @@ def isErr (r : PR.P) (e : Err) : Bool := match r with | .ok _ => false | .error 
 
 /-- `SELECT f(CASE WHEN (SELECT a % 2 FROM t) THEN 1 END) FROM u`: `%` inside a sub-query inside a CASE arm inside a
 function argument -/
-def deepMod : Stmt :=
-  .select (.single (sel [(.func none "f" [.caseCond [(.subQuery (.single (sel [(.compute (.column none "a") "MOD" (.literal "2"), none)] "t")),
-    .literal "1")] none], none)] "u"))
+def deepModQ : Query :=
+  .single (sel [(.func none "f" [.caseCond [(.subQuery (.single (sel [(.compute (.column none "a") "MOD" (.literal "2"), none)] "t")),
+    .literal "1")] none], none)] "u")
+def deepMod : Stmt := .select deepModQ
+
+/-- kernel-checked through the theorem (no evaluation of the printer): exactly the not-supported error -/
+example : prQ .ORACLE deepModQ = .error .notSupported :=
+  refusal_is_notSupported_query .mod .ORACLE deepModQ (by decide) (by decide) (by decide)
+/-- … and text for the four dialects that have `%` (again through the theorem) -/
+example : ∃ s, prQ .SQL_SERVER deepModQ = .ok s := (printable_iff _ _).2 (by decide)
+example : ∃ s, prQ .DEFAULT deepModQ = .ok s := (C01.print_total_on_default _).2 (by decide)
+example : ¬ ∃ s, prQ .DB2 deepModQ = .ok s := fun h => absurd ((printable_iff _ _).1 h) (by decide)
 
 example : usesMod deepMod = true := by decide
 example : unsupported .ORACLE deepMod = true := by decide
@@ -584,6 +942,16 @@ example : stmtDepAny plain = false ∧ anyStmt depAll plain = false := by decide
 example (d d' : Gen.D) : prStmt d plain = prStmt d' plain := dialect_irrelevant_otherwise plain (by decide) (by decide) d d'
 example (d : Gen.D) : unsupported d plain = false := by cases d <;> decide
 #guard Gen.allD.all fun d => isOkText (prStmt d plain) "SELECT `a` + 1\nFROM `t`\nWHERE `b` IN (SELECT `c`\nFROM `u`)"
+
+/-- an ill-formed tree (operator member name outside `EnumComputeOperator`): flagged, and no dialect prints it -/
+def illQ : Query := .single (sel [(.compute (.column none "a") "NO_SUCH_MEMBER" (.literal "1"), none)] "t")
+example : anyQ illFormed illQ = true := by decide
+example (d : Gen.D) : ¬ ∃ s, prQ d illQ = .ok s := fun h => absurd ((printable_iff d illQ).1 h) (by cases d <;> decide)
+/-- DEFAULT refuses the array index at depth, Hive prints it (C01.print_total_on_default / print_total_on_hive) -/
+def deepIndexQ : Query := .single (sel [(.literal "1", none)] "v"
+  (some (.exists_ (.subQuery (.single (sel [(.literal "1", none)] "w" (some (.index (.column none "x") (.literal "0")))))))))
+example : ¬ ∃ s, prQ .DEFAULT deepIndexQ = .ok s := fun h => absurd ((C01.print_total_on_default _).1 h) (by decide)
+example : ∃ s, prQ .HIVE deepIndexQ = .ok s := C01.print_total_on_hive _ (by decide)
 
 /-- `SELECT CURRENT_DATE FROM t`: the one construct DB2 spells differently (the theorem's hypothesis fails, and so does its
 conclusion) -/
